@@ -225,11 +225,15 @@ RecvLock(w) == /\ wpc[w] = "recv_lock"
                /\ Keep /\ UNCHANGED shared
 RecvWake(w) == /\ wpc[w] = "recv_wait" /\ ch.closed /\ Finish(w, "returned")
                /\ Keep /\ UNCHANGED shared
-(* Channel._send under the channel lock: closed -> socket.error; window 0 -> out_buffer_cv.wait; _set_closed  *)
+(* Channel._send under the channel lock: closed -> socket.error; window left -> the data message goes out via  *)
+(* _send_user_message; window 0 -> out_buffer_cv.wait; _set_closed                                            *)
 (* notifies all, _wait_for_send_window returns 0; sendall then calls send again, which raises                 *)
 SendLock(w) == /\ wpc[w] = "send_lock"
-               /\ IF ch.closed THEN Finish(w, "raised") ELSE Goto(w, "send_wait")
+               /\ IF ch.closed THEN Finish(w, "raised")
+                  ELSE Goto(w, "send_wait") \/ Goto(w, "send_msg")     \* window exhausted / window left
                /\ Keep /\ UNCHANGED shared
+SendMsg(w) == /\ wpc[w] = "send_msg" /\ (Finish(w, "returned") \/ (SendMayFail /\ Finish(w, "raised")))
+              /\ Keep /\ UNCHANGED shared
 SendWake(w) == /\ wpc[w] = "send_wait" /\ ch.closed
                /\ IF wapi[w] = "sendall" THEN Goto(w, "send_lock") ELSE Finish(w, "returned")
                /\ Keep /\ UNCHANGED shared
@@ -318,7 +322,7 @@ PxRecv(w) == /\ wpc[w] = "px_recv" /\ loss = "proxy_exit" /\ FixProxy /\ Finish(
 PxSend(w) == /\ wpc[w] = "px_send" /\ Finish(w, IF loss = "proxy_exit" THEN "raised" ELSE "returned")
              /\ Keep /\ UNCHANGED shared
 
-WStep(w) == \/ RecvLock(w) \/ RecvWake(w) \/ SendLock(w) \/ SendWake(w)
+WStep(w) == \/ RecvLock(w) \/ RecvWake(w) \/ SendLock(w) \/ SendWake(w) \/ SendMsg(w)
             \/ ReqCheck(w) \/ ReqClear(w) \/ ReqSend(w) \/ ReqWait(w) \/ StWait(w)
             \/ OcCheck(w) \/ OcRegister(w) \/ OcSend(w) \/ OcPoll(w)
             \/ GrNew(w) \/ GrSend(w) \/ GrPoll(w) \/ RkNew(w) \/ RkSend(w) \/ RkPoll(w)
